@@ -38,3 +38,14 @@ int k_mm_read_sparse(long row_beg, long row_end, long *rows_out, long *cols_out,
     catch (...) { rc = 1; }
     mm_done(name); return rc;
 }
+
+// dense reader, integer payload.  returns 0 ok, 1 threw, 2 outputs exceed the harness capacity
+extern "C" __attribute__((noinline))
+int k_mm_read_dense(long row_beg, long row_end, long *rows_out, long *cols_out, int *val_out, int val_cap, int *val_len) {
+    std::string name = mm_file(); int rc = 0;
+    try { amgcl::io::mm_reader rd(name); std::vector<int> val; size_t n, m; std::tie(n, m) = rd(val, row_beg, row_end);
+        *rows_out = (long)n; *cols_out = (long)m; *val_len = (int)val.size();
+        if ((long)val.size() > val_cap) rc = 2; else for (size_t i = 0; i < val.size(); ++i) val_out[i] = val[i]; }
+    catch (...) { rc = 1; }
+    mm_done(name); return rc;
+}
